@@ -11,6 +11,7 @@ import (
 	"github.com/99designs/gqlgen/plugin/stubgen"
 
 	"verifharness/engines/c01"
+	"verifharness/engines/c02"
 	"verifharness/engines/c04"
 	"verifharness/engines/c05"
 	"verifharness/engines/c06"
@@ -25,6 +26,7 @@ import (
 
 var engines = map[string]func(*gen.Ctx) error{
 	"c01": c01.Run,
+	"c02": c02.Run,
 	"c04": c04.Run,
 	"c05": c05.Run,
 	"c06": c06.Run,
